@@ -99,6 +99,13 @@ Theorem C13_translation_invariant :
 Proof. exact count_bad_shift. Qed.
 Print Assumptions C13_translation_invariant.
 
+(* the two monitor kinds agree: feeding the time-stamps one by one to the online monitor gives the counter that the offline monitor
+   reports for the same time column *)
+Theorem C13_online_offline_agree :
+  forall (p tol norm : Q) (ts : list Q), 0 < norm -> jviol (jrun p tol norm ts) = joff p tol norm ts.
+Proof. intros p tol norm ts Hn. rewrite jitter_online, jitter_offline by exact Hn. reflexivity. Qed.
+Print Assumptions C13_online_offline_agree.
+
 Example C13_nonvacuous :
   (* period 500 ms, default unit s: norm = 10^9/10^6; stamps 0, 0.5, 1.25, 1.75: one bad gap *)
   jviol (jrun 500 (1#10) 1000 [0; 1#2; 5#4; 7#4]) = 1%nat /\ count_bad (500 / 1000) (1#10) [0; 1#2; 5#4; 7#4] = 1%nat.
